@@ -98,6 +98,7 @@ type hdrSpec struct {
 	fwd              int   // > 0: addressed to the harness socket fwd-1 on the listener's host (dispatcher forwarding)
 	spao             uint8 // packet authenticator, see buildSCIONAuth
 	via              uint8 // 1: sent to the stand-alone dispatcher (port 30041 on its own address)
+	ulen             uint8 // what the UDP length field says, see ulenField
 }
 
 type step struct {
@@ -111,7 +112,7 @@ type step struct {
 func (h *hdrSpec) String() string {
 	return lib.L(lib.U(h.dstIA), lib.U(h.srcIA), lib.U(uint64(h.dstType)), lib.U(uint64(h.srcType)),
 		lib.B(h.dstRaw), lib.B(h.srcRaw), lib.U(uint64(h.pathType)), lib.B(h.pathRaw),
-		lib.U(uint64(h.udpSrc)), lib.U(uint64(h.udpDst)), lib.U(uint64(h.underlay)), lib.U(uint64(h.ext)), lib.I(int64(h.fwd)), lib.U(uint64(h.spao)), lib.U(uint64(h.via)))
+		lib.U(uint64(h.udpSrc)), lib.U(uint64(h.udpDst)), lib.U(uint64(h.underlay)), lib.U(uint64(h.ext)), lib.I(int64(h.fwd)), lib.U(uint64(h.spao)), lib.U(uint64(h.via)), lib.U(uint64(h.ulen)))
 }
 
 func stepsString(steps []step) string {
@@ -147,6 +148,9 @@ func stepsFromArgs(args string) []step {
 			}
 			if len(h) >= 15 {
 				s.hdr.spao, s.hdr.via = uint8(h[13].z), uint8(h[14].z)
+			}
+			if len(h) >= 16 {
+				s.hdr.ulen = uint8(h[15].z)
 			}
 		}
 		steps = append(steps, s)
